@@ -180,6 +180,7 @@ func RunOne(t *testing.T, rs RunSpec) (out *RunOutput) {
 	for _, o := range fam.Oracles {
 		o(w, h)
 	}
+	OracleWire(w, h)
 	commonOracles(w, h)
 	out.Violations = dedupViolations(w.Viol)
 	out.Steps = res.Steps
